@@ -9,6 +9,7 @@
 #include <cstring>
 #include <cstdlib>
 #include <regex>
+#include <fstream>
 
 extern "C" {
 // the library's 15 locks; weak so that a renamed lock does not break the link
@@ -429,6 +430,7 @@ Verdict run_case_forked(const PropInfo &p, const ref::Bytes &data, const ref::By
 		}
 		v.stderr_tail = trimmed;
 	} else if (v.ok && err.find("WARNING: ThreadSanitizer:") != std::string::npos) {
+		if (const char *dump = getenv("VF_DUMP_TSAN")) { std::ofstream df(dump, std::ios::app); df << err << "\n=====\n"; }       // triage aid
 		// free-running flavour: the case finished, but ThreadSanitizer reported on the way. A report counts when one of
 		// its stacks has a libbidib frame and none of them is in a call outside the documented thread-safety contract.
 		size_t pos = 0;
@@ -448,7 +450,10 @@ Verdict run_case_forked(const PropInfo &p, const ref::Bytes &data, const ref::By
 				std::string l;
 				bool in_access = false;
 				while (std::getline(rs, l)) {
-					bool head = l.find(" of size ") != std::string::npos && (l.find("by thread") != std::string::npos || l.find("by main thread") != std::string::npos);
+					// "Read of size 4 at ... by thread T3", "Previous atomic write of size ... by main thread"; NOT
+					// "Location is heap block of size 1024 ... allocated by main thread" (its stack is where the memory was allocated)
+					static const std::regex headre("^\\s*(Previous )?(atomic )?(read|write) of size ", std::regex::icase);
+					bool head = std::regex_search(l, headre);
 					if (head) in_access = true;
 					else if (l.find_first_not_of(" \t") == std::string::npos) in_access = false;
 					if (in_access) acc += l + "\n";
